@@ -39,7 +39,7 @@ def make_extra(prop, cfgs=("fe64",)):
                 continue
             outj = os.path.join(base, "mirsym-%s-%s.json" % (prop, cfg))
             tmo = 30000 if tier == "quick" else 300000
-            cmd = ["python3-vt", os.path.join(VERIF, "mirsym", "run.py"), "--mir", mir, "--cfg", cfg, "--prop", prop, "--json", outj, "--timeout-ms", str(tmo), "--tier", tier]
+            cmd = ["python3-vt", os.path.join(VERIF, "mirsym", "run.py"), "--mir", mir, "--cfg", cfg, "--prop", prop, "--json", outj, "--timeout-ms", str(tmo), "--tier", tier, "--native-base", base]
             if os.environ.get("VERIF_ONLY"):
                 cmd += ["--only", os.environ["VERIF_ONLY"]]
             t0 = time.time()
